@@ -79,3 +79,28 @@ inline bool prime(Potassco::ProgramReader& reader, std::istream& primer) {
 	catch (...) { return false; }
 }
 }
+
+#include <potassco/smodels.h>
+#include <algorithm>
+namespace reuse {
+// The four builder calls of SmodelsInput::Options are independent: the option set must not depend on the ORDER in which they are made
+// (seeded C08-r12: dropConverted() only took effect when a conversion had been requested BEFORE it). The order is a permutation derived
+// from the case (hash bits 40..), so it is deterministic and replayable.
+inline Potassco::SmodelsInput::Options smodelsOptions(const Case& c, bool ext, bool cE, bool cH, bool flt) {
+	unsigned long long h = 1469598103934665603ull;
+	for (size_t i = 0; i != c.v.size(); ++i) { h = (h ^ static_cast<unsigned long long>(c.v[i])) * 1099511628211ull; }
+	int order[4] = {0, 1, 2, 3};
+	unsigned k = static_cast<unsigned>((h >> 40) % 24u);
+	for (unsigned i = 0; i != k; ++i) { std::next_permutation(order, order + 4); }
+	Potassco::SmodelsInput::Options o;
+	for (int i = 0; i != 4; ++i) {
+		switch (order[i]) {
+			case 0: if (ext) o.enableClaspExt();   break;
+			case 1: if (cE)  o.convertEdges();     break;
+			case 2: if (cH)  o.convertHeuristic(); break;
+			default: if (flt) o.dropConverted();   break;
+		}
+	}
+	return o;
+}
+}
